@@ -603,3 +603,257 @@ Proof.
   split; [by intros [? _]|]. intros Hjd. split; [done|].
   destruct (chist_closed mnew (mapply vo) (mmerge vo) mvgen H Hc i ri Hi) as [_ Hcl]. by apply (Hcl j rj).
 Qed.
+
+(** * Part 6: closed examples *)
+Local Ltac mv_calc := apply (bool_decide_unpack _); by vm_compute.
+Local Ltac mv_adm :=
+  eexists; split; [reflexivity|]; intros [|[|[|[|j]]]] r' Hlt Hj Ha; cbn in Hj, Ha; simplify_eq; try lia; mv_calc.
+Local Ltac mv_adm_c := eexists; split; [reflexivity|]; mv_calc.
+Local Ltac mv_own :=
+  intros [|[|[|[|j]]]] r Hj Ha; cbn in Hj, Ha; simplify_eq; mv_calc.
+Local Instance mv_mvop_eq_dec : EqDecision mvop.
+Proof. solve_decision. Defined.
+Local Instance mv_mop_eq_dec : EqDecision (mop mvop).
+Proof. solve_decision. Defined.
+
+(** ** Non-vacuity: two actors, keys 7 and 8.  Actor 1 writes 10 under 7 (op 0).  Actor 2, having
+    applied it, writes 20 under 8 (op 1: its put clock {1:1, 2:1} mentions actor 1's dot although
+    the write concerns another key) and then 30 under 7 (op 2, supersedes 10).  Actor 1
+    concurrently writes 40 under 7 (op 3).  Replica X receives ops 1, 2 - actor 2's write of key
+    7 - BEFORE op 0, then ops 0 and 3 (per-actor order respected, not causal); replica Y receives
+    ops 0 1 2 3 (causal).  Both end with the two concurrent values 30 and 40 under 7. *)
+Example mapmv_nk_example :
+  ∃ (H : list (oprec (mop mvop))) (sX2 sX3 sX sY : cmap (list (gmap N N * N))) (K : gset nat),
+    H = [OpRec 1 (MUp (Dot 1 1) 7 (MVPut {[1 := 1]} 10)) ∅;
+         OpRec 2 (MUp (Dot 2 1) 8 (MVPut {[1 := 1; 2 := 1]} 20)) (∅ ∪ {[0%nat]});
+         OpRec 2 (MUp (Dot 2 2) 7 (MVPut {[1 := 1; 2 := 2]} 30)) (∅ ∪ {[0%nat]} ∪ {[1%nat]});
+         OpRec 1 (MUp (Dot 1 2) 7 (MVPut {[1 := 2]} 40)) (∅ ∪ {[0%nat]})] ∧
+    mvhist_ok_nk_causal H ∧ mvhist_ok_nk H ∧
+    (* replica X: ops 1 2 0 3 *)
+    ¬ adm_causal H ∅ 1%nat ∧
+    mvreach_nk H sX2 (∅ ∪ {[1%nat]} ∪ {[2%nat]}) ∧
+    mvreach_nk H sX3 (∅ ∪ {[1%nat]} ∪ {[2%nat]} ∪ {[0%nat]}) ∧
+    mvreach_nk H sX (∅ ∪ {[1%nat]} ∪ {[2%nat]} ∪ {[0%nat]} ∪ {[3%nat]}) ∧
+    K = ∅ ∪ {[1%nat]} ∪ {[2%nat]} ∪ {[0%nat]} ∪ {[3%nat]} ∧
+    (* replica Y: ops 0 1 2 3 *)
+    mvreach_nk_causal H sY K ∧
+    (* under 7, at X: 30 alone; the late write 10 changes nothing; then 30 and 40 *)
+    mv_state_vals sX2 7 = [({[1 := 1; 2 := 2]}, 30)] ∧
+    mv_state_vals sX3 7 = [({[1 := 1; 2 := 2]}, 30)] ∧
+    mv_state_vals sX 7 = [({[1 := 1; 2 := 2]}, 30); ({[1 := 2]}, 40)] ∧
+    mv_state_vals sY 7 = [({[1 := 1; 2 := 2]}, 30); ({[1 := 2]}, 40)] ∧
+    mv_state_vals sX 8 = [({[1 := 1; 2 := 1]}, 20)] ∧
+    rval (mvread (mv_state_vals sX 7)) = [30; 40] ∧
+    mv_maximal (mv_writes (mv_proj (known_ops H K) 7)) = [({[1 := 1; 2 := 2]}, 30); ({[1 := 2]}, 40)] ∧
+    mv_maximal (mv_writes (mv_proj (known_ops H (∅ ∪ {[1%nat]} ∪ {[2%nat]})) 7)) = [({[1 := 1; 2 := 2]}, 30)] ∧
+    mapmv_vals_ok H K sX = true ∧ mapmv_vals_ok H K sY = true ∧ mkeyspec_ok H K sX = true ∧
+    kabs sX = kabs sY ∧ sX = sY.
+Proof.
+  set (o0 := MUp (Dot 1 1) 7 (MVPut {[1 := 1]} 10) : mop mvop).
+  set (o1 := MUp (Dot 2 1) 8 (MVPut {[1 := 1; 2 := 1]} 20) : mop mvop).
+  set (o2 := MUp (Dot 2 2) 7 (MVPut {[1 := 1; 2 := 2]} 30) : mop mvop).
+  set (o3 := MUp (Dot 1 2) 7 (MVPut {[1 := 2]} 40) : mop mvop).
+  set (r0 := OpRec 1 o0 ∅). set (r1 := OpRec 2 o1 (∅ ∪ {[0%nat]})).
+  set (r2 := OpRec 2 o2 (∅ ∪ {[0%nat]} ∪ {[1%nat]})). set (r3 := OpRec 1 o3 (∅ ∪ {[0%nat]})).
+  set (H := [r0; r1; r2; r3]).
+  assert (mvhist_ok_nk_causal H) as Hc.
+  { change H with (((([] ++ [r0]) ++ [r1]) ++ [r2]) ++ [r3]).
+    apply (hist_snoc _ _ _ _ _ _ _ (mapply vo mnew o0) _ 1 (MVWrite 7 40 None)).
+    - apply (hist_snoc _ _ _ _ _ _ _ (mapply vo (mapply vo mnew o0) o1) _ 2 (MVWrite 7 30 (Some 7))).
+      + apply (hist_snoc _ _ _ _ _ _ _ (mapply vo mnew o0) _ 2 (MVWrite 8 20 None)).
+        * apply (hist_snoc _ _ _ _ _ _ _ mnew _ 1 (MVWrite 7 10 None)); [constructor|constructor|mv_own|mv_calc].
+        * apply (reach_apply _ _ _ _ _ _ mnew ∅ 0%nat r0); [constructor|done|mv_adm_c].
+        * mv_own.
+        * mv_calc.
+      + apply (reach_apply _ _ _ _ _ _ _ _ 1%nat r1); [|done|mv_adm_c].
+        apply (reach_apply _ _ _ _ _ _ mnew ∅ 0%nat r0); [constructor|done|mv_adm_c].
+      + mv_own.
+      + mv_calc.
+    - apply (reach_apply _ _ _ _ _ _ mnew ∅ 0%nat r0); [constructor|done|mv_adm_c].
+    - mv_own.
+    - mv_calc. }
+  pose proof (mvhist_causal_nk H Hc) as Hok.
+  set (sX2 := mapply vo (mapply vo mnew o1) o2).
+  set (sX3 := mapply vo sX2 o0). set (sX := mapply vo sX3 o3).
+  set (sY := mapply vo (mapply vo (mapply vo (mapply vo mnew o0) o1) o2) o3).
+  set (KX := ∅ ∪ {[1%nat]} ∪ {[2%nat]} ∪ {[0%nat]} ∪ {[3%nat]} : gset nat).
+  assert (mvreach_nk H sX2 (∅ ∪ {[1%nat]} ∪ {[2%nat]})) as HX2.
+  { apply (reach_apply _ _ _ _ _ _ _ _ 2%nat r2); [|done|mv_adm].
+    apply (reach_apply _ _ _ _ _ _ mnew ∅ 1%nat r1); [constructor|done|mv_adm]. }
+  assert (mvreach_nk H sX3 (∅ ∪ {[1%nat]} ∪ {[2%nat]} ∪ {[0%nat]})) as HX3.
+  { apply (reach_apply _ _ _ _ _ _ _ _ 0%nat r0); [done|done|mv_adm]. }
+  assert (mvreach_nk H sX KX) as HX.
+  { apply (reach_apply _ _ _ _ _ _ _ _ 3%nat r3); [done|done|mv_adm]. }
+  assert (mvreach_nk_causal H sY (∅ ∪ {[0%nat]} ∪ {[1%nat]} ∪ {[2%nat]} ∪ {[3%nat]})) as HY.
+  { apply (reach_apply _ _ _ _ _ _ _ _ 3%nat r3); [|done|mv_adm_c].
+    apply (reach_apply _ _ _ _ _ _ _ _ 2%nat r2); [|done|mv_adm_c].
+    apply (reach_apply _ _ _ _ _ _ _ _ 1%nat r1); [|done|mv_adm_c].
+    apply (reach_apply _ _ _ _ _ _ mnew ∅ 0%nat r0); [constructor|done|mv_adm_c]. }
+  assert (∅ ∪ {[0%nat]} ∪ {[1%nat]} ∪ {[2%nat]} ∪ {[3%nat]} = KX) as EK by mv_calc.
+  rewrite EK in HY.
+  exists H, sX2, sX3, sX, sY, KX. split_and!.
+  - done.
+  - exact Hc.
+  - exact Hok.
+  - intros (r & Hr & Hd). cbn in Hr. injection Hr as <-. cbn in Hd. revert Hd. mv_calc.
+  - exact HX2.
+  - exact HX3.
+  - exact HX.
+  - done.
+  - exact HY.
+  - mv_calc.
+  - mv_calc.
+  - mv_calc.
+  - mv_calc.
+  - mv_calc.
+  - mv_calc.
+  - mv_calc.
+  - mv_calc.
+  - by apply (mapmv_vals_ok_reach H Hok).
+  - apply (mapmv_vals_ok_reach H Hok). by apply mvreach_causal_nk.
+  - by destruct (mapmv_keys_nk H Hok sX KX 7 HX) as (_ & _ & _ & _ & _ & _ & ? & _).
+  - by destruct (mapmv_causal_agree_nk H Hok sY sX KX HY HX) as [-> _].
+  - mv_calc.
+Qed.
+
+(** ** Under per-actor delivery "the author of [i] had applied [j]" does NOT give [cj < ci]:
+    knowledge is not transitive.  Actor 1 writes (op 0); actor 2, having applied it, writes (op 1,
+    clock {1:1, 2:1}); actor 3 receives op 1 WITHOUT op 0 (admissible per actor) and writes (op 2,
+    clock {2:1, 3:1}): op 1 is a dependency of op 2, the clocks are concurrent, and every replica
+    that knows the three ops holds both values (the refinement theorem is about the clock order,
+    whatever it means).  [mapmv_clock_observed_nk] is the exact reading; under causal delivery
+    this cannot happen ([mapmv_clock_observed_causal]). *)
+Example mapmv_observed_not_enough :
+  ∃ (H : list (oprec (mop mvop))) (s : cmap (list (gmap N N * N))) (K : gset nat),
+    H = [OpRec 1 (MUp (Dot 1 1) 7 (MVPut {[1 := 1]} 10)) ∅;
+         OpRec 2 (MUp (Dot 2 1) 7 (MVPut {[1 := 1; 2 := 1]} 20)) (∅ ∪ {[0%nat]});
+         OpRec 3 (MUp (Dot 3 1) 7 (MVPut {[2 := 1; 3 := 1]} 30)) (∅ ∪ {[1%nat]})] ∧
+    mvhist_ok_nk H ∧ ¬ mvhist_ok_nk_causal H ∧
+    (1%nat ∈ (∅ ∪ {[1%nat]} : gset nat)) ∧
+    vlt {[1 := 1; 2 := 1]} {[2 := 1; 3 := 1]} = false ∧
+    vcmp {[1 := 1; 2 := 1]} {[2 := 1; 3 := 1]} = None ∧
+    mvreach_nk H s K ∧ K = ∅ ∪ {[2%nat]} ∪ {[1%nat]} ∪ {[0%nat]} ∧
+    mv_state_vals s 7 = [({[2 := 1; 3 := 1]}, 30); ({[1 := 1; 2 := 1]}, 20)] ∧
+    mapmv_vals_ok H K s = true.
+Proof.
+  set (o0 := MUp (Dot 1 1) 7 (MVPut {[1 := 1]} 10) : mop mvop).
+  set (o1 := MUp (Dot 2 1) 7 (MVPut {[1 := 1; 2 := 1]} 20) : mop mvop).
+  set (o2 := MUp (Dot 3 1) 7 (MVPut {[2 := 1; 3 := 1]} 30) : mop mvop).
+  set (r0 := OpRec 1 o0 ∅). set (r1 := OpRec 2 o1 (∅ ∪ {[0%nat]})). set (r2 := OpRec 3 o2 (∅ ∪ {[1%nat]})).
+  set (H := [r0; r1; r2]).
+  assert (mvhist_ok_nk H) as Hok.
+  { change H with ((([] ++ [r0]) ++ [r1]) ++ [r2]).
+    apply (hist_snoc _ _ _ _ _ _ _ (mapply vo mnew o1) _ 3 (MVWrite 7 30 None)).
+    - apply (hist_snoc _ _ _ _ _ _ _ (mapply vo mnew o0) _ 2 (MVWrite 7 20 None)).
+      + apply (hist_snoc _ _ _ _ _ _ _ mnew _ 1 (MVWrite 7 10 None)); [constructor|constructor|mv_own|mv_calc].
+      + apply (reach_apply _ _ _ _ _ _ mnew ∅ 0%nat r0); [constructor|done|mv_adm].
+      + mv_own.
+      + mv_calc.
+    - apply (reach_apply _ _ _ _ _ _ mnew ∅ 1%nat r1); [constructor|done|mv_adm].
+    - mv_own.
+    - mv_calc. }
+  set (s := mapply vo (mapply vo (mapply vo mnew o2) o1) o0).
+  assert (mvreach_nk H s (∅ ∪ {[2%nat]} ∪ {[1%nat]} ∪ {[0%nat]})) as Hs.
+  { apply (reach_apply _ _ _ _ _ _ _ _ 0%nat r0); [|done|mv_adm].
+    apply (reach_apply _ _ _ _ _ _ _ _ 1%nat r1); [|done|mv_adm].
+    apply (reach_apply _ _ _ _ _ _ mnew ∅ 2%nat r2); [constructor|done|mv_adm]. }
+  exists H, s, (∅ ∪ {[2%nat]} ∪ {[1%nat]} ∪ {[0%nat]}). split_and!.
+  - done.
+  - exact Hok.
+  - intros Hc.
+    destruct (mapmv_clock_observed_causal H 2%nat r2 (Dot 3 1) 7 {[2 := 1; 3 := 1]} 30
+                1%nat r1 (Dot 2 1) 7 {[1 := 1; 2 := 1]} 20 Hc eq_refl eq_refl eq_refl eq_refl) as [_ Hx].
+    assert (vlt ({[1 := 1; 2 := 1]} : gmap N N) {[2 := 1; 3 := 1]} = true) as Hlt by (apply Hx; mv_calc).
+    revert Hlt. mv_calc.
+  - mv_calc.
+  - mv_calc.
+  - mv_calc.
+  - exact Hs.
+  - done.
+  - mv_calc.
+  - by apply (mapmv_vals_ok_reach H Hok).
+Qed.
+
+(** ** The no-merge restriction is needed (finding T1, [map_T1_assoc_refuted] of
+    proofs/MapRefuted.v, as a history): actor 3 writes 7 under key 1 (op 0); actor 2, having
+    applied it, writes 1 and then 0 under key 0 (ops 1, 2; put clocks {3:1, 2:1} < {3:1, 2:2}).
+    With state merges allowed the history is still API-generated and the state
+    [a + (b + c)] (a: ops 0 1, b: op 0, c: ops 0 1 2) is reachable with knowledge {0, 1, 2}; it
+    holds the overwritten value 1 next to 0 under key 0 ([mmerge_entry] resets the register of
+    [b + c] by dots the entry clock does not have: the clock of the value 0 is stripped from
+    {3:1, 2:2} to {2:2} and no longer dominates {3:1, 2:1}), while the only causally maximal known
+    write of key 0 is 0. *)
+Example mapmv_merge_refuted :
+  ∃ (H : list (oprec (mop mvop))) (s : cmap (list (gmap N N * N))) (K : gset nat),
+    H = [OpRec 3 (MUp (Dot 3 1) 1 (MVPut {[3 := 1]} 7)) ∅;
+         OpRec 2 (MUp (Dot 2 1) 0 (MVPut {[3 := 1; 2 := 1]} 1)) (∅ ∪ {[0%nat]});
+         OpRec 2 (MUp (Dot 2 2) 0 (MVPut {[3 := 1; 2 := 2]} 0)) (∅ ∪ {[0%nat]} ∪ {[1%nat]})] ∧
+    mvhist_ok_nk_causal H ∧
+    hist_ok mnew (mapply vo) (mmerge vo) mvgen adm_causal True H ∧
+    reach mnew (mapply vo) (mmerge vo) adm_causal True H s K ∧
+    (∀ i, i ∈ K ↔ (i < 3)%nat) ∧
+    mv_state_vals s 0 = [({[3 := 1; 2 := 1]}, 1); ({[2 := 2]}, 0)] ∧
+    mv_maximal (mv_writes (mv_proj (known_ops H K) 0)) = [({[3 := 1; 2 := 2]}, 0)] ∧
+    ¬ (mv_state_vals s 0 ≡ₚ mv_maximal (mv_writes (mv_proj (known_ops H K) 0))) ∧
+    mapmv_vals_ok H K s = false.
+Proof.
+  set (o0 := MUp (Dot 3 1) 1 (MVPut {[3 := 1]} 7) : mop mvop).
+  set (o1 := MUp (Dot 2 1) 0 (MVPut {[3 := 1; 2 := 1]} 1) : mop mvop).
+  set (o2 := MUp (Dot 2 2) 0 (MVPut {[3 := 1; 2 := 2]} 0) : mop mvop).
+  set (r0 := OpRec 3 o0 ∅). set (r1 := OpRec 2 o1 (∅ ∪ {[0%nat]})).
+  set (r2 := OpRec 2 o2 (∅ ∪ {[0%nat]} ∪ {[1%nat]})).
+  set (H := [r0; r1; r2]).
+  assert (∀ mg : Prop, hist_ok mnew (mapply vo) (mmerge vo) mvgen adm_causal mg H) as Hok.
+  { intros mg. change H with ((([] ++ [r0]) ++ [r1]) ++ [r2]).
+    apply (hist_snoc _ _ _ _ _ _ _ (mapply vo (mapply vo mnew o0) o1) _ 2 (MVWrite 0 0 None)).
+    - apply (hist_snoc _ _ _ _ _ _ _ (mapply vo mnew o0) _ 2 (MVWrite 0 1 None)).
+      + apply (hist_snoc _ _ _ _ _ _ _ mnew _ 3 (MVWrite 1 7 None)); [constructor|constructor|mv_own|mv_calc].
+      + apply (reach_apply _ _ _ _ _ _ mnew ∅ 0%nat r0); [constructor|done|mv_adm_c].
+      + mv_own.
+      + mv_calc.
+    - apply (reach_apply _ _ _ _ _ _ _ _ 1%nat r1); [|done|mv_adm_c].
+      apply (reach_apply _ _ _ _ _ _ mnew ∅ 0%nat r0); [constructor|done|mv_adm_c].
+    - mv_own.
+    - mv_calc. }
+  set (b := mapply vo mnew o0). set (a := mapply vo b o1). set (c := mapply vo a o2).
+  assert (reach mnew (mapply vo) (mmerge vo) adm_causal True H b (∅ ∪ {[0%nat]})) as Hb.
+  { apply (reach_apply _ _ _ _ _ _ mnew ∅ 0%nat r0); [constructor|done|mv_adm_c]. }
+  assert (reach mnew (mapply vo) (mmerge vo) adm_causal True H a (∅ ∪ {[0%nat]} ∪ {[1%nat]})) as Ha.
+  { apply (reach_apply _ _ _ _ _ _ _ _ 1%nat r1); [done|done|mv_adm_c]. }
+  assert (reach mnew (mapply vo) (mmerge vo) adm_causal True H c (∅ ∪ {[0%nat]} ∪ {[1%nat]} ∪ {[2%nat]})) as Hc.
+  { apply (reach_apply _ _ _ _ _ _ _ _ 2%nat r2); [done|done|mv_adm_c]. }
+  set (K := (∅ ∪ {[0%nat]} ∪ {[1%nat]}) ∪ ((∅ ∪ {[0%nat]}) ∪ (∅ ∪ {[0%nat]} ∪ {[1%nat]} ∪ {[2%nat]})) : gset nat).
+  exists H, (mmerge vo a (mmerge vo b c)), K.
+  assert (mv_state_vals (mmerge vo a (mmerge vo b c)) 0 = [({[3 := 1; 2 := 1]}, 1); ({[2 := 2]}, 0)]) as Ev by mv_calc.
+  assert (mv_maximal (mv_writes (mv_proj (known_ops H K) 0)) = [({[3 := 1; 2 := 2]}, 0)]) as Em by mv_calc.
+  split_and!.
+  - done.
+  - apply Hok.
+  - apply Hok.
+  - apply reach_merge; [done|done|]. by apply reach_merge.
+  - intros i. unfold K. rewrite !elem_of_union, !elem_of_singleton, elem_of_empty. lia.
+  - exact Ev.
+  - exact Em.
+  - rewrite Ev, Em. intros Hp%Permutation_length. done.
+  - mv_calc.
+Qed.
+
+Print Assumptions mvhist_nk_wf.
+Print Assumptions pclk_le_iff.
+Print Assumptions pclk_lt_iff.
+Print Assumptions kwrites_good.
+Print Assumptions mv_reach_vals.
+Print Assumptions mapmv_values_refine_nk.
+Print Assumptions mapmv_values_refine_nk_causal.
+Print Assumptions mapmv_vals_ok_reach.
+Print Assumptions mapmv_keys_nk.
+Print Assumptions mapmv_converge_nk.
+Print Assumptions mapmv_dup_apply_nk.
+Print Assumptions mapmv_causal_agree_nk.
+Print Assumptions mapmv_stored_iff_nk.
+Print Assumptions mapmv_read_iff_nk.
+Print Assumptions mapmv_clock_observed_nk.
+Print Assumptions mapmv_clock_observed_causal.
+Print Assumptions mapmv_nk_example.
+Print Assumptions mapmv_observed_not_enough.
+Print Assumptions mapmv_merge_refuted.
